@@ -481,6 +481,10 @@ pub enum BitKind {
     Ones,
     /// dense clusters of `cluster` ones separated by `gap` zeros
     Clustered { cluster: usize, gap: usize },
+    /// the first `units` units of `unit` bits hold exactly `period*h + delta` bits equal to `target`
+    /// (h as large as fits), the next unit starts with `next`: the count of ones/zeros reaches a
+    /// select-hint period exactly on (or one off) a block / superblock boundary
+    CountAligned { period: usize, unit: usize, units: usize, target: bool, delta: i32, next: bool },
 }
 
 #[derive(Clone, Debug)]
@@ -513,6 +517,7 @@ impl BitSpec {
             BitKind::Zeros => "zeros".into(),
             BitKind::Ones => "ones".into(),
             BitKind::Clustered { .. } => "clustered".into(),
+            BitKind::CountAligned { period, target, .. } => format!("countaligned{}{}", period, *target as u8),
         };
         format!("n{}|{}", len_bucket(self.n), k)
     }
@@ -539,6 +544,23 @@ pub fn gen_bits(spec: &BitSpec) -> Vec<bool> {
         BitKind::ZeroEvery(k) => (0..n).map(|i| i % k != k - 1).collect(),
         BitKind::Zeros => vec![false; n],
         BitKind::Ones => vec![true; n],
+        BitKind::CountAligned { period, unit, units, target, delta, next } => {
+            let prefix = unit * units;
+            let h = ((prefix as i64 - 2) / *period as i64).max(1);
+            let want = (h * *period as i64 + *delta as i64).clamp(0, prefix as i64) as usize;
+            // `want` positions of the prefix hold `target`, chosen at random; the rest holds !target
+            let mut v = vec![!*target; prefix];
+            let mut idx: Vec<usize> = (0..prefix).collect();
+            rng.shuffle(&mut idx);
+            for &i in idx.iter().take(want) {
+                v[i] = *target;
+            }
+            v.push(*next);
+            while v.len() < n.max(prefix + 1) {
+                v.push(rng.bool());
+            }
+            v
+        }
         BitKind::Clustered { cluster, gap } => {
             let mut v = Vec::with_capacity(n);
             while v.len() < n {
@@ -571,6 +593,15 @@ pub enum QuadKind {
     Skewed,
     /// only two of the four symbols
     TwoSyms(u8, u8),
+    /// the first `units` superblocks of `unit` symbols hold exactly 8192*h + delta occurrences of `sym`,
+    /// the next superblock starts with `sym` (next = true) or with another symbol
+    CountAligned { unit: usize, units: usize, sym: u8, delta: i32, next: bool },
+    /// like CountAligned with delta = 0, but the counted prefix ends `back` symbols before the superblock
+    /// boundary and the symbol at its end is `sym`: the (8192*h + 1)-th occurrence sits exactly `back`
+    /// positions before a superblock boundary (back = 1: on the last position of a superblock)
+    SampleNearBoundary { unit: usize, units: usize, sym: u8, back: usize },
+    /// `sym` does not occur before `pos`, occurs at `pos`, and with density 1/3 afterwards
+    FirstOccurrenceAt { sym: u8, pos: usize },
 }
 
 #[derive(Clone, Debug)]
@@ -596,6 +627,9 @@ impl QuadSpec {
             QuadKind::Rare { .. } => "rare",
             QuadKind::Skewed => "skewed",
             QuadKind::TwoSyms(..) => "twosyms",
+            QuadKind::CountAligned { .. } => "countaligned",
+            QuadKind::SampleNearBoundary { .. } => "samplenearboundary",
+            QuadKind::FirstOccurrenceAt { .. } => "firstoccurrenceat",
         };
         format!("n{}|{}", len_bucket(self.n), k)
     }
@@ -642,6 +676,49 @@ pub fn gen_quads(spec: &QuadSpec) -> Vec<u8> {
                 .collect()
         }
         QuadKind::TwoSyms(a, b) => (0..n).map(|_| if rng.bool() { *a & 3 } else { *b & 3 }).collect(),
+        QuadKind::SampleNearBoundary { unit, units, sym, back } => {
+            let prefix = unit * units - back;
+            let h = ((prefix as i64 - 2) / 8192).max(0);
+            let want = (h * 8192) as usize;
+            let other = |rng: &mut Rng| -> u8 { (*sym + 1 + rng.below(3) as u8) & 3 };
+            let mut v: Vec<u8> = (0..prefix).map(|_| other(&mut rng)).collect();
+            let mut idx: Vec<usize> = (0..prefix).collect();
+            rng.shuffle(&mut idx);
+            for &i in idx.iter().take(want) {
+                v[i] = *sym & 3;
+            }
+            v.push(*sym & 3); // the (8192h+1)-th occurrence, `back` positions before the boundary
+            while v.len() < n.max(prefix + 1) {
+                v.push(rng.below(4) as u8);
+            }
+            v
+        }
+        QuadKind::FirstOccurrenceAt { sym, pos } => {
+            let other = |rng: &mut Rng| -> u8 { (*sym + 1 + rng.below(3) as u8) & 3 };
+            let mut v: Vec<u8> = (0..*pos).map(|_| other(&mut rng)).collect();
+            v.push(*sym & 3);
+            while v.len() < n.max(pos + 1) {
+                v.push(if rng.below(3) == 0 { *sym & 3 } else { other(&mut rng) });
+            }
+            v
+        }
+        QuadKind::CountAligned { unit, units, sym, delta, next } => {
+            let prefix = unit * units;
+            let h = ((prefix as i64 - 2) / 8192).max(1);
+            let want = (h * 8192 + *delta as i64).clamp(0, prefix as i64) as usize;
+            let other = |rng: &mut Rng| -> u8 { (*sym + 1 + rng.below(3) as u8) & 3 };
+            let mut v: Vec<u8> = (0..prefix).map(|_| other(&mut rng)).collect();
+            let mut idx: Vec<usize> = (0..prefix).collect();
+            rng.shuffle(&mut idx);
+            for &i in idx.iter().take(want) {
+                v[i] = *sym & 3;
+            }
+            v.push(if *next { *sym & 3 } else { other(&mut rng) });
+            while v.len() < n.max(prefix + 1) {
+                v.push(rng.below(4) as u8);
+            }
+            v
+        }
     }
 }
 
